@@ -38,6 +38,7 @@ type Spec struct {
 	ClientKeys     SS2022Keys `json:"-"`
 	ClientEndpoint string     `json:"clientEndpoint,omitempty"` // host:port of the upstream (IP or name)
 	ClientPadding  string     `json:"clientPadding,omitempty"`
+	ClientNetwork  string     `json:"clientNetwork,omitempty"` // "", "ip", "ip4", "ip6": address family of resolved names
 
 	// Chain: the upstream is a second server of the same process (protocol = ClientProto) that
 	// goes out directly; ClientEndpoint is then filled by Start.
@@ -112,7 +113,11 @@ func (sp *Spec) ToJSON(dir string) ([]byte, error) {
 		routes = append(routes, jmap{"name": "rej-ports", "network": "udp", "client": "reject", "toPorts": sp.RejectPorts})
 	}
 	if sp.ClientProto == "direct" {
-		clients = append(clients, jmap{"name": "out", "protocol": "direct", "enableUDP": true, "mtu": 1500})
+		c := jmap{"name": "out", "protocol": "direct", "enableUDP": true, "mtu": 1500}
+		if sp.ClientNetwork != "" {
+			c["network"] = sp.ClientNetwork
+		}
+		clients = append(clients, c)
 	} else {
 		c := jmap{"name": "out", "protocol": sp.ClientProto, "endpoint": sp.ClientEndpoint, "enableUDP": true, "mtu": 1500}
 		if isSS2022(sp.ClientProto) {
@@ -171,6 +176,7 @@ type Service struct {
 	ok     bool
 	once   sync.Once
 	stopAt time.Time
+	doneAt time.Time
 }
 
 var logger = func() *zap.Logger {
@@ -232,6 +238,7 @@ func startOnce(sp *Spec, dir string) (*Service, error) {
 	s := &Service{Spec: sp, JSON: doc, mgr: mgr, cancel: cancel, done: make(chan struct{})}
 	go func() {
 		s.ok = mgr.Run(ctx)
+		s.doneAt = time.Now()
 		mgr.Close()
 		close(s.done)
 	}()
@@ -284,6 +291,9 @@ func (s *Service) Stop(max time.Duration) (time.Duration, bool) {
 		return time.Since(s.stopAt), false
 	}
 }
+
+// StopDuration returns how long Manager.Run took to return after the cancel (valid once done).
+func (s *Service) StopDuration() time.Duration { return s.doneAt.Sub(s.stopAt) }
 
 // StoppedFor returns the time since StopAsync was first called.
 func (s *Service) StoppedFor() time.Duration { return time.Since(s.stopAt) }
